@@ -703,6 +703,66 @@ def map_neuronlist_facts(repo):
     return start, stop_plus, kw_excl, first_is_nl
 
 
+def df_facts(repo):
+    """map_neuronlist_df: what the per-neuron frames are zipped with when the id column is written;
+    NeuronProcessor.__call__: does it record the failure flags of the *unfiltered* results?"""
+    tree = ast.parse((repo / 'navis' / 'utils' / 'decorators.py').read_text())
+    wrapper = _func(_func(tree, 'map_neuronlist_df'), 'wrapper')
+    nlvar = 'nl'
+    loop = None
+    for n in ast.walk(wrapper):
+        if (isinstance(n, ast.For) and _is_call(n.iter, 'zip') and len(n.iter.args) == 2 and isinstance(n.target, ast.Tuple)
+                and any(_is_call(x, 'insert') for x in ast.walk(n))):
+            loop = n
+    if loop is None:
+        raise ValueError('map_neuronlist_df: labelling loop `for n, df in zip(…, res)` not found')
+    nvar, dfvar = _name(loop.target.elts[0]), _name(loop.target.elts[1])
+    partner, resvar = loop.iter.args
+    ins = next(x for x in ast.walk(loop) if _is_call(x, 'insert'))
+    val = next((k.value for k in ins.keywords if k.arg == 'value'), ins.args[2] if len(ins.args) > 2 else None)
+    own_id = (isinstance(ins.func, ast.Attribute) and _name(ins.func.value) == dfvar and isinstance(val, ast.Attribute)
+              and val.attr == 'id' and _name(val.value) == nvar)
+    zip_partner, filt = 'other', False
+    if _name(partner) == nlvar:
+        zip_partner = 'list'
+    elif _name(partner):
+        # latest assignment of that name before the loop
+        asg = [a for a in ast.walk(wrapper) if isinstance(a, ast.Assign) and len(a.targets) == 1
+               and _name(a.targets[0]) == partner.id and a.lineno < loop.lineno]
+        if asg:
+            v = max(asg, key=lambda a: a.lineno).value
+            if isinstance(v, ast.ListComp) and len(v.generators) == 1:
+                g = v.generators[0]
+                if (_is_call(g.iter, 'zip') and len(g.iter.args) == 2 and _name(g.iter.args[0]) == nlvar
+                        and isinstance(g.iter.args[1], ast.Attribute) and g.iter.args[1].attr == 'failed'
+                        and isinstance(g.target, ast.Tuple) and len(g.target.elts) == 2):
+                    keep, flag = _name(g.target.elts[0]), _name(g.target.elts[1])
+                    zip_partner = 'survivors'
+                    filt = (_name(v.elt) == keep and len(g.ifs) == 1 and isinstance(g.ifs[0], ast.UnaryOp)
+                            and isinstance(g.ifs[0].op, ast.Not) and _name(g.ifs[0].operand) == flag)
+    # processor: self.failed = <flags>, flags = [isinstance(r, FailedRun) for r in res] computed before res is filtered
+    ctree = ast.parse((repo / 'navis' / 'core' / 'core_utils.py').read_text())
+    call = _find_def(ctree, 'NeuronProcessor.__call__')
+    records = False
+    flags_line = filter_line = None
+    flags_var = None
+    for a in ast.walk(call):
+        if isinstance(a, ast.Assign) and len(a.targets) == 1:
+            lcs = [x for x in ast.walk(a.value) if isinstance(x, ast.ListComp)]
+            for lc in lcs:
+                if _is_call(lc.elt, 'isinstance') and _name(lc.elt.args[1]) == 'FailedRun' and _name(a.targets[0]):
+                    flags_var, flags_line = a.targets[0].id, a.lineno
+                if (lc.generators[0].ifs and any(_is_call(x, 'isinstance') for x in ast.walk(lc.generators[0].ifs[0]))
+                        and _name(a.targets[0]) == 'res'):
+                    filter_line = a.lineno
+    for a in ast.walk(call):
+        if (isinstance(a, ast.Assign) and len(a.targets) == 1 and isinstance(a.targets[0], ast.Attribute)
+                and a.targets[0].attr == 'failed' and _name(a.targets[0].value) == 'self'):
+            records = (flags_var is not None and _name(a.value) == flags_var and filter_line is not None
+                       and flags_line < filter_line)
+    return dict(zipPartner=zip_partner, survivorsFilterNotFailed=filt, procRecordsFailed=records, labelsWithOwnId=own_id)
+
+
 # ------------------------------------------------------------------------------------------------
 def generate(repo: Path):
     repo = Path(repo)
@@ -725,6 +785,7 @@ def generate(repo: Path):
     sites = map_sites(repo)
     over, rules = zip_rule(repo)
     start, stop_plus, kw_excl, first_is_nl = map_neuronlist_facts(repo)
+    dff = df_facts(repo)
 
     def rule_lean(r):
         return ('{ kind := "%s", excludeTestsLoopKey := %s, iterableAndLenShape := %s, lenOp := "%s", lenOf := "%s", '
@@ -736,6 +797,7 @@ def generate(repo: Path):
    navis/core/core_utils.py, navis/utils/decorators.py (+ the pool-map call sites).  Do not edit: regenerated on
    every `./check C09`. -/
 import NavisModel.Model.JobSpec
+import NavisModel.Model.Zip
 namespace Navis.Gen.NblastJobs
 open Navis.JobSpec
 
@@ -766,8 +828,15 @@ def exclPosStopPlus : Nat := {stop_plus}
 def exclKeywordUnlessIn : List String := [{', '.join('"%s"' % k for k in kw_excl)}]
 def procCalledWithListFirst : Bool := {_lean_bool(first_is_nl)}
 
+/-- `map_neuronlist_df`: what the result frames are zipped with when the id column is written -/
+def dfFacts : Navis.Zip.DfFacts := {{
+  zipPartner := "{dff['zipPartner']}",
+  survivorsFilterNotFailed := {_lean_bool(dff['survivorsFilterNotFailed'])},
+  procRecordsFailed := {_lean_bool(dff['procRecordsFailed'])},
+  labelsWithOwnId := {_lean_bool(dff['labelsWithOwnId'])} }}
+
 end Navis.Gen.NblastJobs
 '''
     meta = dict(source=[str(p.relative_to(repo)) for p in srcs.values()] + ['navis/core/core_utils.py', 'navis/utils/decorators.py'],
-                programs=metas, smart=smart_meta, batch_calls=bc, map_sites=sites)
+                programs=metas, smart=smart_meta, batch_calls=bc, map_sites=sites, df_facts=dff)
     return 'NblastJobs.lean', src, meta
